@@ -93,10 +93,11 @@ type Conn struct {
 	// SUT -> harness
 	out         []byte
 	writes      []WriteRec
-	writeErr    error // injected
-	writeOKLeft int   // with writeErr set: number of writes that still succeed (-1: fail now)
-	failedW     int   // writes refused because of the injected fault
-	lateW       int   // writes attempted after the SUT itself closed the connection
+	writeErr    error    // injected
+	writeOKLeft int      // with writeErr set: number of writes that still succeed (-1: fail now)
+	failedW     int      // writes refused because of the injected fault
+	failedData  [][]byte // what the SUT tried to write in those calls
+	lateW       int      // writes attempted after the SUT itself closed the connection
 
 	closed      bool
 	closedCh    chan struct{}
@@ -198,6 +199,7 @@ func (c *Conn) Write(p []byte) (int, error) {
 	if c.writeErr != nil {
 		if c.writeOKLeft <= 0 {
 			c.failedW++
+			c.failedData = append(c.failedData, append([]byte(nil), p...))
 			c.notify()
 			return 0, c.writeErr
 		}
@@ -318,6 +320,13 @@ func (c *Conn) HealWrites() {
 // writes the SUT attempted after closing the connection itself.
 func (c *Conn) FailedWrites() int { c.mu.Lock(); defer c.mu.Unlock(); return c.failedW }
 func (c *Conn) LateWrites() int   { c.mu.Lock(); defer c.mu.Unlock(); return c.lateW }
+
+// FailedWriteData returns what the SUT tried to write in the calls refused by the injected fault, in order.
+func (c *Conn) FailedWriteData() [][]byte {
+	c.mu.Lock()
+	defer c.mu.Unlock()
+	return append([][]byte(nil), c.failedData...)
+}
 
 // Closed is closed when the SUT closes the connection.
 func (c *Conn) Closed() <-chan struct{} { return c.closedCh }
